@@ -160,6 +160,8 @@ def py_attr(ex, obj, attr, node):
     return VPy('regex_match', obj.payload)
   if obj.what == 'func' and attr in ('__name__',):
     return VStr(obj.payload.split('::')[-1])
+  if obj.what == 'type' and (obj.payload, attr) in MODULE_ATTRS:
+    return MODULE_ATTRS[(obj.payload, attr)](ex)       # e.g. object.__init__
   if obj.what == 'recclass':
     f = RECORD_CLASSES[obj.payload][0]
     if attr in ex.repo.class_methods(f, obj.payload):
